@@ -16,7 +16,7 @@ from ..fakeserial import EBB3Board, FakePort, Profile, QUIET
 
 PROPERTY = "C04"
 
-EXC_KINDS = ("SerialException", "OSError", "RuntimeError")   # what a pyserial backend raises
+EXC_KINDS = ("SerialException", "OSError")   # what pyserial backends raise (RuntimeError is not)
 FAULTS = Profile(write_exc=EXC_KINDS, read_exc=EXC_KINDS,
                  latency=(0, 26), content=("err", "nameerr", "wrong"), silent=True,
                  read_window=2)
@@ -315,7 +315,7 @@ def run(ctx):
         "exhaustive": True,
     }
     assumptions = [
-        "environment alphabet per I/O point: write raises (SerialException, OSError, RuntimeError), board "
+        "environment alphabet per I/O point: write raises (SerialException, OSError), board "
         "silent, reply late (26 empty reads), device error line, name+error line, wrong-name "
         "line, read raises at the first two reads of each request",
         "a blocked method that performs no I/O meets no choice point, so running blocked "
